@@ -238,7 +238,12 @@ example : getLocalAddresses true [.ip [0x20,0x01,0x0d,0xb8,0,0,0,0,0,0,0,0,0,0,0
     getLocalAddresses true [.ip [127,0,0,1], .unparseable] = some [[127,0,0,1]] := by decide
 
 theorem C11_gen : Gen.rcSuccess = 2001 ∧ Gen.rcNoCommonApplication = 5010 ∧ Gen.rcNoCommonSecurity = 5017 ∧
-    Gen.rcUnableToComply = 5012 ∧ Gen.relayAppId = 4294967295 ∧ Gen.cmdCapabilitiesExchange = 257 := by decide
+    Gen.rcUnableToComply = 5012 ∧ Gen.relayAppId = 4294967295 ∧ Gen.cmdCapabilitiesExchange = 257 ∧
+    -- `handleCER` (`SMState.cer`): look for existing metadata, parse, on an error answer with the
+    -- error CEA, report, close; else the success CEA and the metadata - nothing else consulted
+    -- (not the transport, not a pool)
+    Gen.handleCERCalls = ["c.Context", "smpeer.FromContext", "new", "cer.Parse", "errorCEA", "sm.Error", "c.Close",
+      "successCEA", "sm.Error", "smpeer.FromCER", "c.SetContext", "smpeer.NewContext"] := by decide
 
 /-- non-vacuity: a CER with a supported auth application is accepted; one whose only application
     AVP names an unsupported id is rejected with 5010 -/
